@@ -17,12 +17,17 @@ type LuaOutcome struct {
 	Results []string // wire-encoded chunk results
 	Err     string   // "" | "syntax" | "runtime" | "gopanic" | "timeout"
 	Msg     string   // error message (raw)
+	ErrTok  string   // canonical error token body: "<line|->:<payload token>"
 }
 
 // RunLua loads and runs src in a fresh state with the host function emit(...) installed.
 // A Go panic escaping DoString is reported as Err="gopanic" (a property violation for most properties).
 func RunLua(src string, timeout time.Duration, setup func(L *lua.LState)) (out LuaOutcome) {
-	L := lua.NewState()
+	return runLuaFull(src, timeout, setup)
+}
+
+func runLuaFull(src string, timeout time.Duration, setup func(L *lua.LState), opts ...lua.Options) (out LuaOutcome) {
+	L := lua.NewState(opts...)
 	defer L.Close()
 	rt := NewRefTable()
 	L.SetGlobal("emit", L.NewFunction(func(L *lua.LState) int {
@@ -53,10 +58,29 @@ func RunLua(src string, timeout time.Duration, setup func(L *lua.LState)) (out L
 	}
 	base := L.GetTop()
 	L.Push(fn)
+	L.SetGlobal("hostid", L.NewFunction(func(L *lua.LState) int { return L.GetTop() }))
 	if err := L.PCall(0, lua.MultRet, nil); err != nil {
 		out.Err, out.Msg = "runtime", err.Error()
 		if ctx.Err() != nil {
 			out.Err = "timeout"
+			return
+		}
+		out.ErrTok = "-:s" + hexs(err.Error())
+		if ae, ok := err.(*lua.ApiError); ok {
+			if ae.Type == lua.ApiErrorPanic {
+				out.Err = "gopanic"
+				return
+			}
+			if s, ok := ae.Object.(lua.LString); ok {
+				m := posRe.FindStringSubmatch(string(s))
+				if m != nil {
+					out.ErrTok = m[1] + ":s" + hexs(string(s)[len(m[0]):])
+				} else {
+					out.ErrTok = "-:s" + hexs(string(s))
+				}
+			} else if ae.Object != nil {
+				out.ErrTok = "-:" + encVal(ae.Object, rt)
+			}
 		}
 		return
 	}
